@@ -113,8 +113,8 @@ func c04table() []c04attr {
 		wh("S.healthcheck.test", []any{"CMD", "old"}, []any{"CMD", "new", "arg"}),
 		wh("S.command", "old as string", "new string"),
 		// mappings of names that also have a short list spelling: an entry that is not refined keeps its (default) value
-		{path: "S.depends_on", class: "named", keys: []string{"t", "u"}, vals: []any{m("condition", "service_started")},
-			fin: []any{m("condition", "service_healthy", "restart", true), nil}, alt: []any{nil, m("condition", "service_completed_successfully")}},
+		{path: "S.depends_on", class: "named", keys: []string{"t", "u"}, vals: []any{m("condition", "service_started", "required", true)},
+			fin: []any{m("condition", "service_healthy", "restart", true), nil}, alt: []any{nil, m("condition", "service_completed_successfully", "required", false)}},
 		{path: "S.networks", class: "named", keys: []string{"n1", "n2"}, vals: []any{nil},
 			fin: []any{m("aliases", []any{"a1"}), nil}, alt: []any{nil, nil}},
 		// keyed lists: later entry with the same key wins
